@@ -2,7 +2,7 @@
     tuple-argument wrappers of the models and boolean equalities of their result types.
     Nothing here is used by the theorems. *)
 
-From Chalk Require Import Ir.Syntax Ir.Fold Agg.Instance Agg.AntiUnify Agg.MayInv Agg.Solution.
+From Chalk Require Import Ir.Syntax Ir.Fold Agg.Instance Agg.AntiUnify Agg.MayInv Agg.Solution Agg.Loop.
 
 (** Panic messages are never compared: any panic equals any panic. *)
 Definition rs_eqb {A} (e : A -> A -> bool) (a b : res A) : bool :=
@@ -85,3 +85,20 @@ Definition chk_mi_code (p : ((list tm * csubst) * res bool) * option (list tm)) 
            | _, _ => 0
            end in
   m + 4 * v.
+
+(** ** make_solution over a scripted answer stream *)
+Definition chk_ms (m : mi_mode) (p : (binders * list event) * list (list tm)) : res (option solution) :=
+  make_solution m (fst (fst p)) (snd (fst p)) (snd p).
+
+Definition osol_eqb : option solution -> option solution -> bool := option_eqb solution_eqb.
+
+(** 0 = if the real result carries definite guidance, every answer after the first is an
+    instance of it; 1 = not so, and the two models disagree on this script (class F1);
+    2 = not so otherwise. *)
+Definition chk_ms_verdict (p : ((binders * list event) * list (list tm)) * res (option solution)) : N :=
+  let ok := match snd p, snd (fst (fst p)) with
+            | Ok (Some (Ambig (Definite _ s))), _ :: rest => forallb (fun x => instance_of_list x s) (answers_of rest)
+            | _, _ => true
+            end in
+  if ok then 0
+  else if rs_eqb osol_eqb (chk_ms MOld (fst p)) (chk_ms MFix (fst p)) then 2 else 1.
